@@ -54,7 +54,7 @@ pub fn run_line(line: &str) -> Vec<String> {
             kdfs::run(f[0], args)
         }
         "bulk" | "x25519" | "x25519_base" | "x_dh" | "x_dhc" | "x_base" | "x25519_iter" | "x_try" | "ed_keypair" | "ed_sign" | "ed_sign_ext"
-        | "ed_ext_pub" | "ed_exchange" | "ed_verify" | "fe" | "sc_reduce" | "sc_canon" | "sc_rt" | "ge_base" | "ge_dsm"
+        | "ed_ext_pub" | "ed_exchange" | "ed_verify" | "fe" | "consts" | "sc_reduce" | "sc_canon" | "sc_rt" | "ge_base" | "ge_dsm"
         | "ge_chain" | "ge_decode" | "ge_table" | "ge_select" => curve::run(f[0], args),
         "ct_u8_table" | "ct_u64" | "ct_arr" | "ct_slice" | "ct_u64arr" | "ct_u64slice" | "choice" | "ctopt" | "swap64"
         | "swap32" | "set64" | "set32" | "macres_eq" | "tag_eq" => ct::run(f[0], args),
